@@ -329,7 +329,7 @@ func c10GlobalScan() (unknown []string) {
 func init() {
 	fw.ChildModes["c10"] = c10Child
 	n := len(c10Runs)
-	fw.Register(&fw.Prop{
+	register(&fw.Prop{
 		ID: "C10",
 		Rule: "alphabet of 31 runs that touch every piece of process-global state (method lookups on all four prototypes, nested and failing method calls, a method cell called without a fresh lookup, depth and loop limits, syntax and JSON errors, selectors, a 12-key object, JSON output, literals and argument lists whose parts have side effects, two programs of one shape with different literals); " +
 			"(i) explicit-state breadth-first search over run histories with the fingerprint of the package-level state (hook VerifGlobals) as state: from every reachable state every run is executed and compared with its fresh-process result, until the reachable set closes; " +
